@@ -26,6 +26,9 @@ func init() {
 			"C35.R1 like-with-like: Info dictionary keys are not name-decoded a second time",
 			"C35.R2 TABLE: the keyword writer's separator is one the keyword reader splits at",
 			"C35.R3 siblings/TABLE: set and reset of a viewer setting use the same catalog key, known to the validator",
+			"C35.R5 cut (= C13.R8): values that end in a character outside the BMP decode (surrogate bounds test)",
+			"C35.R6 MPT: finalizeKeywords reaches the XMP clean-up on every successful path when the catalog has XMP metadata",
+			"C35.R7 like-with-like: in-memory Info dictionary keys are accessed as they are, not name-encoded",
 			"C35.R4 shape: the name-tree writer does not deepen a path by splitting a leaf in place (the reader refuses deep trees) — violated on the tree, known finding",
 		},
 		Assumptions: []string{"the parser decodes names (model.parseName calls types.DecodeName); listing reads the fields validation fills"},
@@ -42,6 +45,12 @@ func runC35(c *Ctx) {
 	r.MinInst["C35.R3"] = 3
 	r.MinInst["C35.R4"] = 1
 	checkNameTreeSplit(c)
+	r.MinInst["C35.R5"] = 1
+	checkSurrogateBounds(c, "C35.R5")
+	r.MinInst["C35.R6"] = 1
+	checkKeywordsXMPCleanup(c)
+	r.MinInst["C35.R7"] = 2
+	checkInfoKeysNotEncodedForAccess(c)
 	files := []string{"pkg/pdfcpu/validate/info.go", "pkg/pdfcpu/property.go", "pkg/pdfcpu/keyword.go"}
 	inFiles := func(fn *ssa.Function) bool {
 		f := p.File(fn.Pos())
@@ -324,5 +333,153 @@ func checkNameTreeSplit(c *Ctx) {
 	})
 	if n == 0 {
 		r.OK("C35.R4", fid, "leaf split pushes down", p.Pos(fn.Pos()), "the leaf handler does not deepen the tree in place", true)
+	}
+}
+
+
+// R6: listing takes the union of the Info dictionary's Keywords and the catalog XMP's pdf:Keywords / dc:subject, so an
+// edit has to update both. In finalizeKeywords every successful return is either behind CatalogXMPMeta == nil or after
+// the call that removes the keywords from the metadata stream.
+func checkKeywordsXMPCleanup(c *Ctx) {
+	p, r := c.P, c.R
+	const fid = "pkg/pdfcpu.finalizeKeywords"
+	fn := p.Func(fid)
+	if fn == nil {
+		r.Bad("C35.R6", fid, "anchor", "", "UNRESOLVED-ANCHOR")
+		return
+	}
+	var nilEdges []Edge
+	eachInstr(fn, func(_ *ssa.BasicBlock, _ int, i ssa.Instruction) {
+		bo, ok := i.(*ssa.BinOp)
+		if !ok || (bo.Op != token.EQL && bo.Op != token.NEQ) {
+			return
+		}
+		var other ssa.Value
+		switch {
+		case isNilConst(bo.Y):
+			other = bo.X
+		case isNilConst(bo.X):
+			other = bo.Y
+		default:
+			return
+		}
+		if strings.HasSuffix(fieldPath(other), "CatalogXMPMeta") {
+			nilEdges = append(nilEdges, condEdges(bo, bo.Op == token.EQL)...)
+		}
+	})
+	cleans := func(b *ssa.BasicBlock) bool {
+		for _, in := range b.Instrs {
+			if call, ok := in.(*ssa.Call); ok {
+				if f := staticCallee(call); f != nil && f.Name() == "removeKeywordsFromMetadata" {
+					return true
+				}
+			}
+		}
+		return false
+	}
+	free := map[*ssa.BasicBlock]bool{fn.Blocks[0]: true}
+	work := []*ssa.BasicBlock{fn.Blocks[0]}
+	for len(work) > 0 {
+		b := work[len(work)-1]
+		work = work[:len(work)-1]
+		if cleans(b) {
+			continue
+		}
+		for si, s := range b.Succs {
+			isNilEdge := false
+			for _, e := range nilEdges {
+				if e.From == b && e.Succ == si {
+					isNilEdge = true // no XMP on this edge: nothing to clean
+				}
+			}
+			if isNilEdge {
+				continue
+			}
+			if !free[s] {
+				free[s] = true
+				work = append(work, s)
+			}
+		}
+	}
+	n := 0
+	for _, ret := range returnsOf(fn) {
+		if k, ok := returnErrKind(ret); ok && k == errNonNil {
+			continue
+		}
+		n++
+		construct := fmt.Sprintf("successful return#%d", n)
+		b := ret.Block()
+		switch {
+		case !free[b] || cleans(b):
+			r.OK("C35.R6", fid, construct, posOrFn(p, ret, fn), "every path to this return cleans the XMP keywords or takes the CatalogXMPMeta == nil edge", true)
+		default:
+			r.Bad("C35.R6", fid, construct, posOrFn(p, ret, fn), "the keyword edit can finish without updating the catalog's XMP metadata although the document may have some: listing takes the union of both, so keywords that were just removed are listed again")
+		}
+	}
+	if n == 0 {
+		r.Bad("C35.R6", fid, "successful returns", p.Pos(fn.Pos()), "UNDECIDED")
+	}
+}
+
+// R7: the mirror image of R1. Keys of a dictionary in memory are decoded; a lookup, store or delete with
+// types.EncodeName(k) as the key addresses an entry only when the name needs no escape. In property.go and keyword.go
+// no result of EncodeName is used as a key of a types.Dict.
+func checkInfoKeysNotEncodedForAccess(c *Ctx) {
+	p, r := c.P, c.R
+	n := 0
+	for _, fn := range p.Funcs {
+		if !isSubject(fn) {
+			continue
+		}
+		f := p.File(fn.Pos())
+		if !strings.HasSuffix(f, "pkg/pdfcpu/property.go") && !strings.HasSuffix(f, "pkg/pdfcpu/keyword.go") {
+			continue
+		}
+		isEncoded := func(v ssa.Value) bool {
+			for _, l := range valueLeaves(v) {
+				if call, ok := l.(*ssa.Call); ok {
+					if _, ref := callRef(call); strings.HasSuffix(ref, "types.EncodeName") {
+						return true
+					}
+				}
+			}
+			return false
+		}
+		isDict := func(v ssa.Value) bool { return strings.HasSuffix(v.Type().String(), "types.Dict") }
+		k := 0
+		eachInstr(fn, func(_ *ssa.BasicBlock, _ int, i ssa.Instruction) {
+			var key ssa.Value
+			switch x := i.(type) {
+			case *ssa.MapUpdate:
+				if isDict(x.Map) {
+					key = x.Key
+				}
+			case *ssa.Lookup:
+				if isDict(x.X) {
+					key = x.Index
+				}
+			case *ssa.Call:
+				if b, ok := x.Call.Value.(*ssa.Builtin); ok && b.Name() == "delete" && len(x.Call.Args) == 2 && isDict(x.Call.Args[0]) {
+					key = x.Call.Args[1]
+				}
+			}
+			if key == nil {
+				return
+			}
+			if _, isConst := key.(*ssa.Const); isConst {
+				return
+			}
+			k++
+			n++
+			construct := fmt.Sprintf("dictionary access with a computed key#%d", k)
+			if isEncoded(key) {
+				r.Bad("C35.R7", FuncID(fn), construct, p.Pos(i.Pos()), "an in-memory dictionary is accessed with types.EncodeName(k) as the key; keys are held decoded, so an entry whose name needs an escape (a blank, '#', a delimiter) is not found — removing such a property reports success and leaves it in place")
+			} else {
+				r.OK("C35.R7", FuncID(fn), construct, p.Pos(i.Pos()), "the key is used as it is", true)
+			}
+		})
+	}
+	if n == 0 {
+		r.Bad("C35.R7", "pkg/pdfcpu/property.go", "anchor", "", "UNRESOLVED-ANCHOR: no dictionary access with a computed key in property.go / keyword.go")
 	}
 }
